@@ -568,10 +568,9 @@ func (e *EvalCtx) call(n ECall) Val {
 		}
 		al, ok := oh.m["$alloc"]
 		if !ok {
-			al = sym("H0 $alloc")
-			e.c.declare(al, "(Array Int Bool)")
+			al = e.c.allocT0()
 		}
-		return boolVal(fmt.Sprintf("(and (not (= %s 0)) (not (select %s %s)))", a.T, al, a.T))
+		return boolVal(fmt.Sprintf("(and (not (= %s 0)) (not %s))", a.T, inAl(al, a.T)))
 	case "backing": // backing(x, []T): the content of backing store x as an array value (single-leaf element types)
 		a := arg(0)
 		t := e.c.eng.parseType(e.pkg, exprString(n.Args[1]))
@@ -584,13 +583,11 @@ func (e *EvalCtx) call(n ECall) Val {
 		return Val{K: KArr, T: fmt.Sprintf("(select %s %s)", arr, a.T), Len: "Int", Cap: l.Sort}
 	case "preexisting": // allocated before the function under verification was entered
 		a := arg(0)
-		al := sym("H0 $alloc")
-		e.c.declare(al, "(Array Int Bool)")
-		return boolVal(fmt.Sprintf("(select %s %s)", al, a.T))
+		return boolVal(inAl(e.c.allocT0(), a.T))
 	case "allocated":
 		a := arg(0)
 		al := e.c.heapGetAllocView(e.heap)
-		return boolVal(fmt.Sprintf("(select %s %s)", al, a.T))
+		return boolVal(inAl(al, a.T))
 	case "dyntype": // dyntype(x, T): dynamic type of interface x is exactly T
 		a := arg(0)
 		id := exprString(n.Args[1])
@@ -739,9 +736,7 @@ func (c *FnCtx) heapGetAllocView(h *HeapView) string {
 	if a, ok := h.m["$alloc"]; ok {
 		return a
 	}
-	n := sym("H0 $alloc")
-	c.declare(n, "(Array Int Bool)")
-	c.heapSort["$alloc"] = "Bool"
+	n := c.allocT0()
 	h.m["$alloc"] = n
 	return n
 }
@@ -1028,6 +1023,7 @@ func (c *FnCtx) finishContractOld(p *Path, fc *FuncContract, fn *ssa.Function, r
 		}
 	}
 	mk(p, fc.Ensures)
+	advanced := false
 	for _, r := range rs {
 		var ref string
 		switch r.K {
@@ -1037,8 +1033,11 @@ func (c *FnCtx) finishContractOld(p *Path, fc *FuncContract, fn *ssa.Function, r
 			ref = r.IVal
 		}
 		if ref != "" {
-			al := c.heapGetAlloc(p)
-			p.heap.m["$alloc"] = fmt.Sprintf("(store %s %s true)", al, ref)
+			if !advanced {
+				c.advanceAlloc(p)
+				advanced = true
+			}
+			p.assume(fmt.Sprintf("(or (<= %s 1) %s)", ref, inAl(c.heapGetAlloc(p), ref)))
 		}
 	}
 	outs = append(outs, outcome{p: p, ret: rs})
@@ -1249,13 +1248,7 @@ func (c *FnCtx) monitorAcquire(p *Path, key string, m Val) {
 		}
 		// other threads may have allocated: the allocation set grows, and every reference another thread left
 		// in a guarded field denotes an object that exists now (so it differs from anything allocated later)
-		al := c.heapGetAlloc(p)
-		al2 := c.fresh("Ha $alloc", "(Array Int Bool)")
-		p.assume(fmt.Sprintf("(forall ((cx Int)) (! (=> (select %s cx) (select %s cx)) :pattern ((select %s cx))))", al, al2, al))
-		for _, a := range p.allocs {
-			p.assume(fmt.Sprintf("(select %s %s)", al2, a))
-		}
-		p.heap.m["$alloc"] = al2
+		al2 := c.advanceAlloc(p)
 		if st := structOf(c.eng.parseType(c.eng.pkgByDir(mon.Pkg), mon.Type)); st != nil {
 			for i := 0; i < st.NumFields(); i++ {
 				f := st.Field(i)
@@ -1275,7 +1268,7 @@ func (c *FnCtx) monitorAcquire(p *Path, key string, m Val) {
 						continue
 					}
 					v := fmt.Sprintf("(select %s %s)", c.heapGet(&p.heap, key, "Int"), m.T)
-					p.assume(fmt.Sprintf("(or (<= %s 1) (select %s %s))", v, al2, v))
+					p.assume(fmt.Sprintf("(or (<= %s 1) %s)", v, inAl(al2, v)))
 				}
 			}
 		}
